@@ -63,6 +63,12 @@ def run_in_fork(fn, args=(), kwargs=None, cwd=None, timeout=120.0, quiet=True):
         try:
             os.close(rfd)
             os.setpgid(0, 0)
+            try:  # a child forked from a (daemonic) pool worker must be able to start processes itself
+                import multiprocessing as _mp
+
+                _mp.current_process()._config["daemon"] = False
+            except Exception:  # noqa: BLE001
+                pass
             if cwd:
                 os.chdir(cwd)
             if quiet:
@@ -74,15 +80,17 @@ def run_in_fork(fn, args=(), kwargs=None, cwd=None, timeout=120.0, quiet=True):
             except BaseException as exc:  # noqa: BLE001
                 res = ("exc", type(exc).__name__, traceback.format_exc(), str(exc))
             data = pickle.dumps(res, protocol=pickle.HIGHEST_PROTOCOL)
+            # length-prefixed: grandchildren may inherit the pipe and keep it open, so EOF is not the end marker
             with os.fdopen(wfd, "wb") as fh:
-                fh.write(data)
+                fh.write(len(data).to_bytes(8, "big") + data)
         except BaseException:  # noqa: BLE001
             code = 70
         finally:
             os._exit(code)
     # ---- parent
     os.close(wfd)
-    chunks = []
+    buf = b""
+    need = None
     deadline = time.time() + timeout
     timed_out = False
     while True:
@@ -95,7 +103,20 @@ def run_in_fork(fn, args=(), kwargs=None, cwd=None, timeout=120.0, quiet=True):
             b = os.read(rfd, 1 << 20)
             if not b:
                 break
-            chunks.append(b)
+            buf += b
+            if need is None and len(buf) >= 8:
+                need = int.from_bytes(buf[:8], "big")
+            if need is not None and len(buf) >= 8 + need:
+                break
+        else:
+            # child gone without (complete) message?
+            try:
+                done, _ = os.waitpid(pid, os.WNOHANG)
+            except ChildProcessError:
+                done = pid
+            if done:
+                pid_reaped = True
+                break
     os.close(rfd)
     if timed_out:
         try:
@@ -108,13 +129,16 @@ def run_in_fork(fn, args=(), kwargs=None, cwd=None, timeout=120.0, quiet=True):
             pass
         os.waitpid(pid, 0)
         raise ChildTimeout(f"child did not finish within {timeout}s")
-    _, status = os.waitpid(pid, 0)
+    try:
+        _, status = os.waitpid(pid, 0)
+    except ChildProcessError:
+        status = -1
     # make sure nothing of the child's process group survives (engines' children)
     try:
         os.killpg(pid, signal.SIGKILL)
     except (ProcessLookupError, PermissionError):
         pass
-    data = b"".join(chunks)
+    data = buf[8 : 8 + need] if need is not None and len(buf) >= 8 + need else b""
     if not data:
         raise ChildCrashed(status)
     res = pickle.loads(data)
